@@ -113,6 +113,8 @@ dropty!(D4, 4, [u8; 0]);
 dropty!(D8, 8, u32);
 dropty!(D16, 16, [u32; 3]);
 dropty!(D4S12, 4, [u32; 2]);
+// a drop type larger than 256 bytes (a handle that carries its value is as large as the value)
+dropty!(D4S260, 4, [[u32; 32]; 2]);
 
 thread_local! {
     /// drops of zero-sized drop types (they cannot carry an id): a plain counter, read around single operations
@@ -171,7 +173,7 @@ macro_rules! table {
 table!(
     A1S0, A1S1, A1S2, A1S3, A1S5, A1S7, A1S8, A1S9, A1S17, A1S33, A1S64, A2S0, A2S2, A2S6, A2S10,
     A4S0, A4S4, A4S12, A4S20, A8S0, A8S8, A8S16, A8S24, A8S40, A8S64, A16S0, A16S16, A16S32,
-    A16S48, D4, D8, D16, D4S12, u8, u16, u32, u64, u128, DZ1, DZ8
+    A16S48, D4, D8, D16, D4S12, u8, u16, u32, u64, u128, DZ1, DZ8, D4S260
 );
 
 macro_rules! prim {
